@@ -497,7 +497,7 @@ func quickConfigs() []config {
 
 func TestCheck(t *testing.T) {
 	r := ev.Start("C16", "fault_enumeration")
-	r.SetBudget(ev.Pick(r, 140, 1600))
+	t0run := time.Now()
 	// The design asked for depth 5 / 7; measured cost (~0.1 CPU-s per distinct state incl. its interruption variants,
 	// state count x2.5 per level) puts that at ~15 / ~45 min on 16 cores, so the bounds are 4 / 6.
 	depth := ev.Pick(r, 4, 6)
@@ -536,6 +536,15 @@ func TestCheck(t *testing.T) {
 		for _, ns := range []bool{false, true} {
 			jobs = append(jobs, job{config{0, tickIv, 1, 0, ns}, 3, path{evTick, evRevert}})
 		}
+	}
+	// Part S first and outside the search's time budget: it is cheap and must never be the part an overloaded machine cuts.
+	t0s := time.Now()
+	staleEvals := runStale(r, bases)
+	r.Set("stale_part_seconds", int64(time.Since(t0s).Seconds()))
+	// the search's budget starts counting after the base chains and part S (the deadline is relative to the run's start)
+	r.SetBudget(ev.Pick(r, 140, 1600) + int(time.Since(t0run).Seconds()))
+	if os.Getenv("VERIF_C16_ONLY") == "stale" { // development aid
+		jobs = nil
 	}
 	var winQueries int64
 	winDone := make(chan struct{})
@@ -595,7 +604,7 @@ func TestCheck(t *testing.T) {
 	r.Set("questions_compared_with_twin", tot.questions.Load())
 	r.Set("below_floor_refused", tot.belowErr.Load())
 	r.Set("below_floor_answered_completely", tot.belowSame.Load())
-	r.Set("evaluations", tot.liveCases.Load()+tot.restartCases.Load()+tot.midCases.Load()+tot.crashCases.Load()+tot.cancelCases.Load()+winQueries)
+	r.Set("evaluations", tot.liveCases.Load()+tot.restartCases.Load()+tot.midCases.Load()+tot.crashCases.Load()+tot.cancelCases.Load()+winQueries+staleEvals)
 	r.Set("distinct_nontrivial", tot.states.Load())
 	r.Set("rule", fmt.Sprintf("per configuration (retained x min-age x heads/prune x batch threshold x state backend): BFS over ALL sequences of <= %d events from "+
 		"{store next block, L1 head := head-2 | head | head+3, floor tick (+5 min), revert head down to the floor, catch-up store} on a %d-block base chain, "+
@@ -605,7 +614,12 @@ func TestCheck(t *testing.T) {
 		"(reopen on the image) and a context cancel after EVERY batch commit, each followed by a resumed prune that must reach the uninterrupted image. "+
 		"Part W (windows_test.go): on a %d-block chain (two completed bloom-filter windows + 6 blocks) every floor of a list covering each position relative to the window "+
 		"boundaries x both backends: PruneUpto, reopen, event queries from the floor / the boundaries / the head vs the unpruned twin, revert across the last window boundary "+
-		"(to the floor for one floor per backend in the thorough tier), extend by 3 blocks, queries again.", depth, baseLen, longLen))
+		"(to the floor for one floor per backend in the thorough tier), extend by 3 blocks, queries again. "+
+		"Part S (stale_test.go, runs first, outside the time budget): on the base chain, both backends x batch threshold {1 byte, default} x every f1 in 1..head-1 "+
+		"(PruneUpto(f1) completes) x every f2 in f1+1..head x every i in 0..f2-f1-1 (PruneUpto(f2) cancelled after exactly i swept blocks): whole Reader surface "+
+		"with the FULL state question set also by hash vs the twin (a) on the node that lived through the prune, floor raised to f2-1, (b) after restart, "+
+		"(c) after restart + a completed PruneUpto(f3), f3 in {f2, head} (thorough: every f3 above the stop point), whose image must equal the uninterrupted one; "+
+		"merged on identical (image, floor).", depth, baseLen, longLen))
 	r.Assume = append(r.Assume,
 		"events are delivered one at a time at quiescence (no preemption inside a prune other than cancel/crash at batch commits)",
 		"a batch commit is atomic (C15)", "the unpruned twin is a correct reference (C03/C04)",
